@@ -263,7 +263,129 @@ func (c *chunkReader) Read(p []byte) (int, error) {
 
 func iotestChunks(b []byte, n int) io.Reader { return &chunkReader{b: b, n: n} }
 
+// mMapSlice: map[string][]string decoded by the specialised decoder, whose scratch slice starts at capacity 10 and
+// doubles: a list handed to the caller (stored in the map) is the caller's: it keeps its contents while the decoder
+// goes on with the next entries, with a later document into the same map, and when the input is overwritten
+func mMapSlice(n, via int) {
+	if !mine() {
+		skip()
+		return
+	}
+	args := fmt.Sprintf("%d %d", n, via)
+	trace("m.mapslice", args)
+	var el []string
+	for i := 0; i < n; i++ {
+		el = append(el, fmt.Sprintf(`"e%d"`, i))
+	}
+	big := "["
+	for i, e := range el {
+		if i > 0 {
+			big += ","
+		}
+		big += e
+	}
+	big += "]"
+	doc1 := `{"first":` + big + `,"second":["x","y"],"third":` + big + `}`
+	doc2 := `{"second":["q"],"fourth":["r","s","t"]}`
+	impl := guarded(func() string {
+		var m, w map[string][]string
+		in1, in2 := []byte(doc1), []byte(doc2)
+		dec := func(b []byte) error {
+			switch via {
+			case 0:
+				return json.Unmarshal(b, &m)
+			case 1:
+				_, err := json.Parse(b, &m, json.DontCopyNumber|json.DontCopyRawMessage)
+				return err
+			}
+			return json.NewDecoder(bytes.NewReader(b)).Decode(&m)
+		}
+		if dec(in1) != nil || stdjson.Unmarshal([]byte(doc1), &w) != nil {
+			return "err"
+		}
+		if fmt.Sprintf("%q", m) != fmt.Sprintf("%q", w) {
+			return fmt.Sprintf("DIFFERS-FROM-STD %q", m)
+		}
+		first := m["first"]
+		want := fmt.Sprintf("%q", first)
+		if dec(in2) != nil || stdjson.Unmarshal([]byte(doc2), &w) != nil {
+			return "err2"
+		}
+		for i := range in1 {
+			in1[i] = '#'
+		}
+		for i := range in2 {
+			in2[i] = '#'
+		}
+		if fmt.Sprintf("%q", m) != fmt.Sprintf("%q", w) {
+			return fmt.Sprintf("DIFFERS-FROM-STD-AFTER-SECOND %q", m)
+		}
+		if fmt.Sprintf("%q", first) != want {
+			return fmt.Sprintf("LIST-HANDED-OUT-CHANGED %q", first)
+		}
+		return "ok"
+	})
+	emit("m.mapslice", args, impl, "ok")
+}
+
+// mUnescape: Unescape / AppendUnescape return memory of their own (no zero-copy flag exists for them): the result
+// keeps its contents when the input is overwritten, and writing to the result leaves the input alone
+func mUnescape(seed uint64) {
+	if !mine() {
+		skip()
+		return
+	}
+	args := fmt.Sprint(seed)
+	trace("m.unescape", args)
+	r := &vrng{s: seed}
+	impl := guarded(func() string {
+		for _, plain := range []string{"value", "x", "", r.str(), "tab\there", "caf\u00e9"} {
+			q, _ := stdjson.Marshal(plain)
+			_ = stdjson.Unmarshal(q, &plain) // ill-formed UTF-8 of the generated text is sanitised by Marshal
+			for k, dst := range [][]byte{nil, {}, make([]byte, 0, 128), []byte("pre")} {
+				in := append([]byte(nil), q...)
+				var out []byte
+				if k == 0 {
+					out = json.Unescape(in)
+				} else {
+					out = json.AppendUnescape(dst, in, 0)
+				}
+				want := string(dst) + plain
+				if k == 0 {
+					want = plain
+				}
+				if string(out) != want {
+					return fmt.Sprintf("WRONG %q want %q", out, want)
+				}
+				for i := range in {
+					in[i] = '#'
+				}
+				if string(out) != want {
+					return fmt.Sprintf("RESULT-CHANGED-WHEN-INPUT-WAS-OVERWRITTEN %q (dst kind %d)", out, k)
+				}
+				in = append(in[:0], q...)
+				for i := range out {
+					out[i] = '!'
+				}
+				if string(in) != string(q) {
+					return "INPUT-MODIFIED-THROUGH-THE-RESULT"
+				}
+			}
+		}
+		return "ok"
+	})
+	emit("m.unescape", args, impl, "ok")
+}
+
 func c10Reuse() {
+	for _, n := range []int{9, 10, 11, 19, 20, 21, 40} {
+		for via := 0; via < 3; via++ {
+			mMapSlice(n, via)
+		}
+	}
+	for i := 0; i < 20; i++ {
+		mUnescape(rnd())
+	}
 	n := 300
 	if *tier == "thorough" {
 		n = 3000
